@@ -243,16 +243,45 @@ def rules(report, index):
     from .c07 import ONE_SHOT_FACTORIES
     um = index.need('calmjs.parse.unparsers.es5')
     nargs = 0
+    printer_classes = set()
+    for mname in ('calmjs.parse.unparsers.base', 'calmjs.parse.unparsers.es5',
+                  'calmjs.parse.unparsers.extractor'):
+        pm_ = index.module(mname)
+        if pm_ is not None:
+            printer_classes |= {c for c in pm_.classes if 'Unparser' in c}
+    if 'Unparser' not in printer_classes:
+        raise AnalysisError('the Unparser classes vanished')
     for fname, fdef in sorted(um.functions.items()):
+        local = {}
         for n in ast.walk(fdef):
-            if not (isinstance(n, ast.Call) and ast.unparse(
-                    n.func).startswith('rules.')):
+            if isinstance(n, ast.Assign) and len(n.targets) == 1 and \
+                    isinstance(n.targets[0], ast.Name):
+                local.setdefault(n.targets[0].id, []).append(n.value)
+
+        def is_oneshot(arg, depth=0):
+            if isinstance(arg, ast.GeneratorExp):
+                return True
+            if isinstance(arg, ast.Call) and ast.unparse(
+                    arg.func).split('.')[-1] in ONE_SHOT_FACTORIES:
+                return True
+            if isinstance(arg, ast.IfExp):
+                return is_oneshot(arg.body, depth) or is_oneshot(
+                    arg.orelse, depth)
+            if isinstance(arg, ast.Name) and depth < 3:
+                return any(is_oneshot(v, depth + 1)
+                           for v in local.get(arg.id, []))
+            return False
+        for n in ast.walk(fdef):
+            # the rule factories, and the printer classes themselves (their
+            # `rules` / handler arguments are walked again by every call of
+            # the printer)
+            if not (isinstance(n, ast.Call) and (ast.unparse(
+                    n.func).startswith('rules.') or ast.unparse(
+                    n.func).split('.')[-1] in printer_classes)):
                 continue
             for arg in list(n.args) + [k.value for k in n.keywords]:
                 nargs += 1
-                oneshot = isinstance(arg, ast.GeneratorExp) or (
-                    isinstance(arg, ast.Call) and ast.unparse(
-                        arg.func).split('.')[-1] in ONE_SHOT_FACTORIES)
+                oneshot = is_oneshot(arg)
                 r2.check(not oneshot, 'argument of %s in %s re-iterable: %s'
                          % (ast.unparse(n.func), fname,
                             ast.unparse(arg)[:40]),
